@@ -193,7 +193,61 @@ pub open spec fn ident_token_ok(token: Token, table: LookupTable, decls: Seq<Ran
         !(*name_range is Some && name_range->0 == token.range) && !(token.token_type is Ident) ==> ((r is Some) == (class_of(token.token_type) is Some)) && (r is Some ==> r->0.token_type == class_of(token.token_type)->0 && r->0.token_modifiers_bitset == 0), //# collect_proc_dec::lexical_class_otherwise
 //@end
 
-//~not_decided local_declaration_ranges (which tokens declare parameters and local variables; two loops whose invariants need existential witnesses) is not under contract: the declaration bit of parameters and variables is decided relative to the list it returns
+// ---------- local_declaration_ranges: which tokens declare the parameters and local variables of a procedure
+pub open spec fn param_name(p: Reference<ParameterDeclaration>) -> Option<Identifier> {
+    match p.reference { ParameterDeclaration::Valid { doc, is_ref, name, type_expr, info } => name, _ => None }
+}
+pub open spec fn var_name(v: Reference<VariableDeclaration>) -> Option<Identifier> {
+    match v.reference { VariableDeclaration::Valid { doc, name, type_expr, info } => name, _ => None }
+}
+/// the name tokens of the first n parameters, in order (a declaration without a name, or whose name token does not exist, contributes nothing)
+pub open spec fn param_decl_ranges(ps: Seq<Reference<ParameterDeclaration>>, ts: Seq<Token>, n: nat) -> Seq<Range<usize>>
+    decreases n
+{
+    if n == 0 || n > ps.len() { Seq::empty() } else {
+        param_decl_ranges(ps, ts, (n - 1) as nat) + (match param_name(ps[n - 1]) { Some(name) => match name_token(name, ps[n - 1].offset, ts) { Some(r) => seq![r], None => Seq::empty() }, None => Seq::empty() })
+    }
+}
+pub open spec fn var_decl_ranges(vs: Seq<Reference<VariableDeclaration>>, ts: Seq<Token>, n: nat) -> Seq<Range<usize>>
+    decreases n
+{
+    if n == 0 || n > vs.len() { Seq::empty() } else {
+        var_decl_ranges(vs, ts, (n - 1) as nat) + (match var_name(vs[n - 1]) { Some(name) => match name_token(name, vs[n - 1].offset, ts) { Some(r) => seq![r], None => Seq::empty() }, None => Seq::empty() })
+    }
+}
+pub open spec fn decl_offsets_fit(pd: ProcedureDeclaration) -> bool {
+    (forall|i: int| 0 <= i < pd.parameters@.len() ==> match param_name(#[trigger] pd.parameters@[i]) { Some(name) => pd.parameters@[i].offset + name.info.range.end <= usize::MAX, None => true })
+    && (forall|i: int| 0 <= i < pd.variable_declarations@.len() ==> match var_name(#[trigger] pd.variable_declarations@[i]) { Some(name) => pd.variable_declarations@[i].offset + name.info.range.end <= usize::MAX, None => true })
+}
+//@extract spl_frontend/src/ast.rs :: impl<T> AsRef<T> for Reference<T>
+//@ ret r fn as_ref
+//@ sig fn as_ref
+        ensures *r == self.reference,
+//@end
+//@extract lsp4spl/src/features/semantic_tokens.rs :: fn local_declaration_ranges
+//@ ret r
+//@ sig
+    requires decl_offsets_fit(*pd),
+    ensures r@ == param_decl_ranges(pd.parameters@, tokens@, pd.parameters@.len()) + var_decl_ranges(pd.variable_declarations@, tokens@, pd.variable_declarations@.len()), //# local_declaration_ranges::the_name_token_of_every_parameter_and_local_variable_in_order
+//@ before "&pd.parameters {"
+it: 
+//@ loop 0
+        invariant
+            decl_offsets_fit(*pd), it.seq().len() == pd.parameters@.len(),
+            forall|k: int| 0 <= k < pd.parameters@.len() ==> *it.seq()[k] == pd.parameters@[k],
+            ranges@ == param_decl_ranges(pd.parameters@, tokens@, it.index@ as nat),
+//@ after "for param in &pd.parameters {"
+        assert(*param == pd.parameters@[it.index@ as int]);
+//@ before "&pd.variable_declarations {"
+it2: 
+//@ loop 1
+        invariant
+            decl_offsets_fit(*pd), it2.seq().len() == pd.variable_declarations@.len(),
+            forall|k: int| 0 <= k < pd.variable_declarations@.len() ==> *it2.seq()[k] == pd.variable_declarations@[k],
+            ranges@ == param_decl_ranges(pd.parameters@, tokens@, pd.parameters@.len()) + var_decl_ranges(pd.variable_declarations@, tokens@, it2.index@ as nat),
+//@ after "for var in &pd.variable_declarations {"
+        assert(*var == pd.variable_declarations@[it2.index@ as int]);
+//@end
 /// "decodes to strictly increasing tokens": if the walk visits tokens with strictly increasing start positions, the
 /// decoded positions are the tokens' positions, hence strictly increasing as well (one step of the induction)
 pub proof fn lemma_walk_step(prev: Position, t1: Token, t2: Token, s1: SemanticToken, s2: SemanticToken, text: Seq<char>)
